@@ -42,9 +42,13 @@ type c19Stim struct {
 	Forms  []string `json:"forms"`
 	Probes []string `json:"probes"`
 	Objs   []c19Obj `json:"objs"`
+	// Env: forms evaluated in the defining session after the probes have answered and before the load forms are printed
+	// and the snapshot is taken: global settings of the printer variables (what is saved must not depend on them)
+	Env []string `json:"env"`
 }
 
 type c19Job struct {
+	Env    []string `json:"env"`
 	Forms  []string `json:"forms"`
 	Snap   string   `json:"snap"`
 	Probes []string `json:"probes"`
@@ -114,7 +118,7 @@ func c19(args []string) {
 			}
 			return p
 		}
-		first := session(c19Job{Forms: st.Forms, Probes: st.Probes, Objs: st.Objs})
+		first := session(c19Job{Forms: st.Forms, Probes: st.Probes, Objs: st.Objs, Env: st.Env})
 		second := session(c19Job{Snap: first.Snap, Probes: st.Probes})
 		// the objects of the session rebuilt from their pretty-printed load forms, once per distinct text
 		lf := []h.V{}
@@ -168,11 +172,17 @@ func c19session(args []string) {
 		}
 	}
 	for _, p := range job.Probes {
-		o := h.Eval(s, "(prin1-to-string "+p+")")
+		// (the probes answer under the default printer settings whatever the session or its snapshot set)
+		o := h.Eval(s, "(let ((*print-base* 10) (*print-radix* nil) (*print-length* nil) (*print-level* nil) (*print-prec* -1)) (prin1-to-string "+p+"))")
 		if str, ok := o.Val.(slip.String); ok && o.OK() {
 			res.Probes = append(res.Probes, string(str))
 		} else {
 			res.Probes = append(res.Probes, "error")
+		}
+	}
+	for _, f := range job.Env {
+		if o := h.Eval(s, f); !o.OK() && res.St == "ok" {
+			res.St = "env " + f + ": " + o.Class + ": " + o.Msg
 		}
 	}
 	for _, margin := range c19Margins {
